@@ -1,1 +1,165 @@
+(* C17_Props.v — the property theorems of C17 and nothing else.
+   Each is closed by `exact <lemma>` and followed by Print Assumptions.
+   `compress` / `decompress` stand for the five compression libraries; the only thing asked
+   of them is codec_ok (decompress after compress is the identity), where it is needed. *)
 From V Require Import C17_Spec C17_Proofs.
+Open Scope N_scope.
+
+(* ---- the body encoders ---- *)
+(* a single message is written as its (possibly compressed) data, nothing else, no error *)
+Theorem message_exact : forall compress oc,
+  contents_ok oc -> write_message compress oc = (payload_of compress oc, false).
+Proof. exact message_exact_proof. Qed.
+Print Assumptions message_exact.
+
+Theorem message_invertible : forall compress decompress c d,
+  codec_ok compress decompress -> comp_known (c_comp c) = true -> data_bytes (c_data c) = Some d ->
+  write_message compress (Some c) = (payload_of compress (Some c), false) /\
+  decompress_with decompress (c_comp c) (fst (write_message compress (Some c))) = Some d.
+Proof. exact message_invertible_proof. Qed.
+Print Assumptions message_invertible.
+
+(* for ALL item lists (any flags 0..255, explicit or computed lengths, per-item compression, missing
+   payloads) the stream is the concatenation of flags byte, 4-byte big-endian declared length, payload *)
+Theorem stream_layout : forall compress items,
+  Forall (item_ok) items -> write_stream compress items = (wire compress items, false).
+Proof. exact stream_layout_proof. Qed.
+Print Assumptions stream_layout.
+
+(* invertible: when every length field tells the truth, reading the stream back returns every item's
+   flags, length and payload, nothing is left over, and decompressing returns the data specified *)
+Theorem stream_invertible : forall compress decompress items,
+  codec_ok compress decompress -> Forall item_ok items -> Forall (honest compress) items ->
+  write_stream compress items = (wire compress items, false) /\
+  parse_envelopes (wire compress items) =
+    (map (fun it => (i_flags it, N.of_nat (length (payload_of compress (i_payload it))),
+                     payload_of compress (i_payload it))) items, []) /\
+  map (fun it => decode_payload decompress (i_payload it) (payload_of compress (i_payload it))) items =
+    map (fun it => Some (data_of (i_payload it))) items.
+Proof. exact stream_invertible_proof. Qed.
+Print Assumptions stream_invertible.
+
+(* deliberately not invertible: with ANY explicit length n the reader recovers the flags and n, and takes
+   as payload the next n bytes of (real payload ++ following frames) - or runs short *)
+Theorem explicit_length_head : forall compress it rest n,
+  item_ok it -> Forall item_ok rest -> i_len it = Some n -> n < 4294967296 ->
+  parse_one (fst (write_stream compress (it :: rest))) =
+  let following := payload_of compress (i_payload it) ++ wire compress rest in
+  if n <=? N.of_nat (length following)
+  then Some (i_flags it, n, firstn (N.to_nat n) following, skipn (N.to_nat n) following) else None.
+Proof. exact explicit_length_head_proof. Qed.
+Print Assumptions explicit_length_head.
+
+(* flags outside 0..255: an error, with exactly the preceding items on the wire *)
+Theorem stream_bad_flags : forall compress good bad rest,
+  Forall item_ok good -> 255 < i_flags bad ->
+  write_stream compress (good ++ bad :: rest) = (wire compress good, true).
+Proof. exact stream_bad_flags_proof. Qed.
+Print Assumptions stream_bad_flags.
+
+(* ---- raw or normal response ---- *)
+(* for ALL histories of handler actions and setRawResponse calls: what reaches the inner writer is the raw
+   emission on an untouched writer (no handler header, status or byte) if a raw response was stored before
+   a normal one started - the last one stored - and otherwise exactly what the handler did; never a mixture.
+   `returns` also fixes what each call reported (setRawResponse fails iff a normal response had started). *)
+Theorem raw_or_handler : forall compress snap ops,
+  serve compress snap ops =
+  option_map (fun w => (w, returns Undecided ops))
+    (match raw_choice ops with
+     | Some r => emit compress snap r (iw_new snap)
+     | None => direct (iw_new snap) ops
+     end).
+Proof. exact raw_or_handler_proof. Qed.
+Print Assumptions raw_or_handler.
+
+(* the raw emission: given status (200 if unset); for every name the middleware's values followed by every
+   given value in order; Date suppressed; exactly the encoded body; for every trailer name exactly the
+   given values in order (stored under net/http's "Trailer:" convention) *)
+Theorem raw_exact : forall compress snap r w,
+  NoDup (map fst snap) ->
+  emit compress snap r (iw_new snap) = Some w ->
+  fst (committed w) = (if r_status r =? 0 then 200 else r_status r) /\
+  (forall k, k <> date_key -> k <> trailer_key ->
+             hm_vals k (snd (committed w)) = hm_vals k snap ++ values_of k (r_headers r)) /\
+  hm_get date_key (snd (committed w)) = Some [] /\
+  iw_body w = fst (write_body compress (r_body r)) /\
+  iw_flushed w = false /\
+  (forall k, (forall kv, In kv snap -> ~ In 58 (fst kv)) -> Forall (fun h => token (h_name h)) (r_headers r) ->
+             hm_vals (trailer_prefix ++ k) (iw_hdr w) = values_of k (r_trailers r)).
+Proof. exact raw_exact_proof. Qed.
+Print Assumptions raw_exact.
+
+(* every RPC kind that can carry a raw response (Unary, IdempotentUnary, ClientStream, ServerStream,
+   BidiStream) gets it, whatever the RPC library does after the interceptor failed the call *)
+Theorem recorder_every_rpc : forall compress snap k r after normal,
+  Forall (fun o => match o with OSetRaw _ => False | _ => True end) after ->
+  option_map fst (serve compress snap (rpc_ops k (Some r) after normal)) = emit compress snap r (iw_new snap).
+Proof. exact recorder_proof. Qed.
+Print Assumptions recorder_every_rpc.
+
+(* ---- raw request ---- *)
+Theorem request_exact : forall compress orig r,
+  token (q_verb r) -> Forall (fun e => contents_ok (e_value e)) (q_encq r) ->
+  exists s, raw_request compress orig r = Some s /\
+    s_method s = match q_verb r with [] => bs "GET" | v => v end /\
+    s_path s = fst (split_first 63 (q_uri r)) /\
+    s_body s = fst (write_body compress (q_body r)) /\
+    (forall k, hm_vals k (s_headers s) = values_of k (q_headers r)) /\
+    (forall k, hm_vals k (s_query s) =
+               hm_vals k (uri_query (q_uri r)) ++ qvalues_of k (q_rawq r) ++ enc_values_of compress k (q_encq r)).
+Proof. exact request_exact_proof. Qed.
+Print Assumptions request_exact.
+
+Theorem request_ignores_orig : forall compress o1 o2 r, raw_request compress o1 r = raw_request compress o2 r.
+Proof. exact request_ignores_orig_proof. Qed.
+Print Assumptions request_ignores_orig.
+
+(* ---- non-vacuity ---- *)
+(* a toy codec satisfying the hypothesis *)
+Definition toy_c (c : N) (d : bytes) : bytes := c :: d ++ [c].
+Definition toy_d (c : N) (d : bytes) : option bytes :=
+  match d with x :: r => if x =? c then Some (removelast r) else None | [] => None end.
+Example ex_codec_ok : codec_ok toy_c toy_d.
+Proof. intros c d. unfold toy_c, toy_d. rewrite N.eqb_refl. now rewrite removelast_last. Qed.
+
+Definition ex_items : list item :=
+  [ mk_item 0 None (Some (mk_contents (DBinary [1; 2; 3]) 2));
+    mk_item 2 (Some 3) (Some (mk_contents (DText [7]) 5));
+    mk_item 255 None None ].
+Example ex_items_ok : Forall item_ok ex_items /\ Forall (honest toy_c) ex_items.
+Proof. split; repeat constructor; vm_compute; congruence. Qed.
+Example ex_roundtrip :
+  parse_envelopes (fst (write_stream toy_c ex_items)) =
+  ([(0, 5, [2; 1; 2; 3; 2]); (2, 3, [5; 7; 5]); (255, 0, [])], []).
+Proof. vm_compute. reflexivity. Qed.
+(* an explicit length that lies: the reader takes the next item's prefix for payload *)
+Example ex_lying_length :
+  parse_envelopes (fst (write_stream toy_c
+     [mk_item 1 (Some 4) (Some (mk_contents (DBinary [9]) 1)); mk_item 2 None (Some (mk_contents (DBinary [8]) 1))])) =
+  ([(1, 4, [9; 2; 0; 0])], [0; 1; 8]).
+Proof. vm_compute. reflexivity. Qed.
+
+Definition ex_raw : resp :=
+  mk_resp 0 [mk_header (bs "x-a") [bs "1"; bs "2"]] (BUnary (Some (mk_contents (DText (bs "raw")) 1)))
+          [mk_header (bs "x-t") [bs "t"]].
+(* both sides of the arbitration occur *)
+Example ex_choice_raw : raw_choice [OAdd (bs "x-h") (bs "v"); OSetRaw ex_raw; OWriteHeader 500; OWrite (bs "handler")] = Some ex_raw.
+Proof. reflexivity. Qed.
+Example ex_choice_normal : raw_choice [OWrite (bs "handler"); OSetRaw ex_raw] = None.
+Proof. reflexivity. Qed.
+Example ex_raw_wins :
+  option_map (fun p => (fst (committed (fst p)), iw_body (fst p), hm_vals (bs "X-H") (snd (committed (fst p))), snd p))
+    (serve toy_c [] [OAdd (bs "x-h") (bs "v"); OSetRaw ex_raw; OWriteHeader 500; OWrite (bs "handler")]) =
+  Some (200, bs "raw", [], [1; 7]%Z).
+Proof. vm_compute. reflexivity. Qed.
+Example ex_handler_wins :
+  option_map (fun p => (fst (committed (fst p)), iw_body (fst p), snd p))
+    (serve toy_c [] [OWrite (bs "handler"); OSetRaw ex_raw]) = Some (200, bs "handler", [7; 0]%Z).
+Proof. vm_compute. reflexivity. Qed.
+Example ex_request :
+  option_map (fun s => (s_method s, s_path s, hm_vals (bs "q") (s_query s), s_body s))
+    (raw_request toy_c live_orig
+       (mk_rawreq [] (bs "/p?q=0") [] [mk_header (bs "q") [bs "1"]] [mk_encq (bs "q") (Some (mk_contents (DBinary [255]) 1)) true]
+                  (BUnary (Some (mk_contents (DText (bs "b")) 0))))) =
+  Some (bs "GET", bs "/p", [bs "0"; bs "1"; bs "_w=="], bs "b").
+Proof. vm_compute. reflexivity. Qed.
